@@ -10,6 +10,7 @@ package main
 import (
 	"context"
 	"encoding/base64"
+	"errors"
 	"encoding/json"
 	"fmt"
 	"io"
@@ -47,6 +48,7 @@ type c13Op struct {
 	Vals    vtree     `json:"vals"`
 	NilVals bool      `json:"nil_vals,omitempty"` // pass a nil map rather than an empty one
 	Version int       `json:"version,omitempty"`  // rollback target, 0 = previous
+	Fails   bool      `json:"fails,omitempty"`    // the cluster wait fails after the record was created
 }
 
 type c13Case struct {
@@ -65,6 +67,8 @@ type c13Step struct {
 	Err string `json:"err,omitempty"` // error text, for the replay file only (never compared)
 	// snapshots for the oracle
 	ValsMutated bool `json:"vals_mutated,omitempty"`
+	// the status of every stored revision right after this step (index = revision - 1)
+	Statuses []string `json:"statuses,omitempty"`
 }
 
 type c13Obs struct {
@@ -83,7 +87,8 @@ func (*c13) Rule() string {
 		"ResetValues/ReuseValues/ResetThenReuseValues (single flags and none most often, also combinations), values that are a mutation of an " +
 		"earlier step's values (nulls, table<->scalar changes, dropped keys), empty or nil in 1/4 of the steps; the chart's defaults change between " +
 		"versions in half of the upgrades (mutated, or type-flipped: tables become scalars/lists and back); a third of the chains use a chart with 1-2 levels " +
-		"of subcharts (defaults of every level change, subcharts come and go, user sections for subcharts, scalars on subchart keys, globals); rollbacks to the previous, an explicit earlier or a non-existent revision; " +
+		"of subcharts (defaults of every level change, subcharts come and go, user sections for subcharts, scalars on subchart keys, globals); " +
+		"a quarter of the upgrades, 1/8 of the rollbacks and 1/15 of the installs FAIL after their record was created (injected wait error: the revision is stored as failed); rollbacks to the previous, an explicit earlier or a non-existent revision; " +
 		"non-trivial = at least two revisions stored and at least one upgrade with a reuse flag or a rollback succeeded; distinct = hash of (case, observation)"
 }
 
@@ -103,6 +108,28 @@ func (*c13) Corpus() []any {
 			{Kind: "rollback"},
 		}})
 	}
+	// the newest revision is a FAILED upgrade with other values and another chart version: the next
+	// upgrade carries forward from the deployed revision 1 (seeded C13-5), for each flag choice
+	for _, f := range [][3]bool{{false, true, false}, {false, false, true}, {false, false, false}} {
+		nv := vtree{"t": vtree{"y": "u3"}}
+		if !f[1] && !f[2] {
+			nv = vtree{}
+		}
+		out = append(out, c13Case{Ops: []c13Op{
+			{Kind: "install", Chart: c13Chart("c", d1), Vals: vtree{"a": int64(10), "u": "keep"}},
+			{Kind: "upgrade", Chart: c13Chart("c", d2), Vals: vtree{"a": int64(99), "bad": "x"}, Fails: true},
+			{Kind: "upgrade", Reuse: f[1], RTR: f[2], Chart: c13Chart("c", d2), Vals: nv},
+			{Kind: "rollback", Version: 2},
+			{Kind: "upgrade", Reuse: f[1], RTR: f[2], Chart: c13Chart("c", d1), Vals: nv, Fails: true},
+			{Kind: "upgrade", Reuse: f[1], RTR: f[2], Chart: c13Chart("c", d1), Vals: nv},
+		}})
+	}
+	out = append(out, c13Case{Ops: []c13Op{
+		{Kind: "install", Chart: c13Chart("c", d1), Vals: vtree{"a": int64(1)}, Fails: true},
+		{Kind: "upgrade", Reuse: true, Chart: c13Chart("c", d2), Vals: vtree{"b": int64(2)}},
+		{Kind: "rollback", Version: 1, Fails: true},
+		{Kind: "upgrade", RTR: true, Chart: c13Chart("c", d2), Vals: vtree{"c": int64(3)}},
+	}})
 	out = append(out, c13Case{Ops: []c13Op{
 		{Kind: "install", Chart: c13Chart("c", d1), Vals: vtree{}},
 		{Kind: "rollback", Version: 0},
@@ -224,7 +251,7 @@ func (*c13) Generate(r *rand.Rand, _ int) any {
 		return v
 	}
 	vals := userVals(base)
-	c := c13Case{Ops: []c13Op{{Kind: "install", Chart: c13CopyChart(ch), Vals: vals}}}
+	c := c13Case{Ops: []c13Op{{Kind: "install", Chart: c13CopyChart(ch), Vals: vals, Fails: r.Intn(15) == 0}}}
 	hist := []vtree{vals}
 	n := 1 + r.Intn(5)
 	revs := 1
@@ -237,13 +264,13 @@ func (*c13) Generate(r *rand.Rand, _ int) any {
 			case 1:
 				v = revs + 1 + r.Intn(2)
 			}
-			c.Ops = append(c.Ops, c13Op{Kind: "rollback", Version: v})
+			c.Ops = append(c.Ops, c13Op{Kind: "rollback", Version: v, Fails: r.Intn(8) == 0})
 			if v <= revs && (v > 0 || revs > 1) {
 				revs++
 			}
 			continue
 		}
-		op := c13Op{Kind: "upgrade"}
+		op := c13Op{Kind: "upgrade", Fails: r.Intn(4) == 0}
 		switch k := r.Intn(12); {
 		case k < 3:
 		case k < 5:
@@ -338,10 +365,17 @@ func (*c13) Execute(ci any) (res any) {
 	}()
 	cfg := &action.Configuration{
 		Releases:     storage.Init(driver.NewMemory()),
-		KubeClient:   &kubefake.PrintingKubeClient{Out: io.Discard},
 		Capabilities: chartutil.DefaultCapabilities,
 	}
+	// the printing fake with a waiter that can be told to fail: the operation then fails after
+	// its record was created, and the new revision is stored as failed
+	kc := &kubefake.FailingKubeClient{PrintingKubeClient: kubefake.PrintingKubeClient{Out: io.Discard}}
+	cfg.KubeClient = kc
 	for _, o := range c.Ops {
+		kc.WaitError = nil
+		if o.Fails {
+			kc.WaitError = errors.New("injected wait failure")
+		}
 		st := c13Step{}
 		var vals map[string]interface{}
 		if !o.NilVals {
@@ -379,8 +413,22 @@ func (*c13) Execute(ci any) (res any) {
 		if o.Kind != "rollback" && !vtEqual(vals, o.Vals) {
 			st.ValsMutated = true
 		}
+		if rels, err := cfg.Releases.History(c13Name); err == nil {
+			byv := map[int]string{}
+			mx := 0
+			for _, rl := range rels {
+				byv[rl.Version] = rl.Info.Status.String()
+				if rl.Version > mx {
+					mx = rl.Version
+				}
+			}
+			for v := 1; v <= mx; v++ {
+				st.Statuses = append(st.Statuses, byv[v])
+			}
+		}
 		obs.Steps = append(obs.Steps, st)
 	}
+	kc.WaitError = nil
 	// read every stored revision at the end (so that a later operation that disturbed an
 	// earlier record shows)
 	rels, err := cfg.Releases.History(c13Name)
@@ -418,12 +466,12 @@ func (*c13) Execute(ci any) (res any) {
 func c13CoqOp(o c13Op) string {
 	switch o.Kind {
 	case "install":
-		return fmt.Sprintf("OInstall %s %s", c04CoqChart(o.Chart), hx.CoqValMap(o.Vals))
+		return fmt.Sprintf("OInstall %s %s %s", c04CoqChart(o.Chart), hx.CoqValMap(o.Vals), hx.CoqBool(o.Fails))
 	case "upgrade":
-		return fmt.Sprintf("OUpgrade (mkFlags %s %s %s) %s %s", hx.CoqBool(o.Reset), hx.CoqBool(o.Reuse), hx.CoqBool(o.RTR),
-			c04CoqChart(o.Chart), hx.CoqValMap(o.Vals))
+		return fmt.Sprintf("OUpgrade (mkFlags %s %s %s) %s %s %s", hx.CoqBool(o.Reset), hx.CoqBool(o.Reuse), hx.CoqBool(o.RTR),
+			c04CoqChart(o.Chart), hx.CoqValMap(o.Vals), hx.CoqBool(o.Fails))
 	}
-	return fmt.Sprintf("ORollback %d", o.Version)
+	return fmt.Sprintf("ORollback %d %s", o.Version, hx.CoqBool(o.Fails))
 }
 
 func (*c13) CoqCase(ci, oi any) string {
@@ -442,7 +490,12 @@ func (*c13) CoqCase(ci, oi any) string {
 	}
 	revs := make([]string, len(obs.Revs))
 	for i, r := range obs.Revs {
-		revs[i] = fmt.Sprintf("mkObs %s %s", hx.CoqValMap(r.Config), hx.CoqValMap(r.Rendered))
+		st, known := map[string]string{"deployed": "SDeployed", "superseded": "SSuperseded", "failed": "SFailed"}[r.Status]
+		if !known {
+			st = "SFailed"
+			oks = append(oks, "false", "false", "false", "false", "false", "false", "false", "false") // a status outside the model: mismatch
+		}
+		revs[i] = fmt.Sprintf("mkObs %s %s %s", hx.CoqValMap(r.Config), hx.CoqValMap(r.Rendered), st)
 	}
 	return fmt.Sprintf("mkCase %s %s %s", hx.CoqList(ops), hx.CoqList(oks), hx.CoqList(revs))
 }
